@@ -195,7 +195,7 @@ def collect_emitted_imports(ctx: Ctx) -> List[EmittedImport]:
 
 
 def rule_imp1(ctx: Ctx) -> RuleResult:
-    rr = RuleResult("IMP-1", "every import a generator can emit names an existing module and a name bound in it", floor=14)
+    rr = RuleResult("IMP-1", "every import a generator can emit names an existing module and a name bound in it", floor=10)
     imps = collect_emitted_imports(ctx)
     seen = set()
     for im in imps:
